@@ -84,6 +84,14 @@ Theorem C02_ecmp_total : forall ws : list wpath, exists n, ecmp_count (map embed
 Proof. exact ecmp_total. Qed.
 Print Assumptions C02_ecmp_total.
 
+(* the ECMP set is exactly the candidates that are equal-cost with the best path (same protocol and,
+   for BGP, same LOCAL_PREF, AS_PATH length, ORIGIN, MED) - a function of the candidate multiset *)
+Theorem C02_ecmp_set_exact : forall (c : list wpath) (o : list path) (b : wpath),
+  sort_admits (map embed c) o -> best o = Some (embed b) ->
+  ecmp_count o = Ok (N.of_nat (length (filter (equal_cost b) c))).
+Proof. exact ecmp_set_exact. Qed.
+Print Assumptions C02_ecmp_set_exact.
+
 (* ---- the hypotheses are satisfiable: the executable insertion sort of the model is admissible, and
    every history has a run *)
 Theorem C02_sort_hypothesis_satisfiable : forall c, sort_admits (map embed c) (isort (map embed c)).
